@@ -93,6 +93,7 @@ class World:
         self.armed = False
         self.fired = 0
         self.audit = audit
+        self.generation_fails = 0
         self.pinned = []           # (dict, snapshot of contents, refcount after action)
         self.log = []
         W = self
@@ -131,6 +132,9 @@ class World:
             _gen = 0
 
             def _get_generation(self):
+                if W.generation_fails:
+                    W.generation_fails -= 1
+                    raise Injected('reading _generation failed')
                 W.fire('generation')
                 return self._gen
 
@@ -254,6 +258,18 @@ class World:
         elif a == 'changed-then-gc':
             reg.changed(None)
             gc.collect()
+        elif a == 'register-while-generation-fails':
+            # the mutation succeeds as far as the registry's contents go; the
+            # invalidation that ends it fails once while it reads a base's
+            # _generation (verifying registries), and the failure propagates
+            self.generation_fails = 1
+            try:
+                reg.register([self.I1], self.P, '', self.fNEW)
+            finally:
+                failed = not self.generation_fails
+                self.generation_fails = 0
+            if not failed:
+                raise Injected('injected')      # (non-verifying flavour: nothing read it)
         else:
             raise AssertionError(a)
 
@@ -262,7 +278,7 @@ class World:
         if a in ('nop', 'reenter-same', 'reenter-other', 'gc', 'raise', 'changed',
                  'lookup.changed', 'changed-then-gc'):
             return
-        if a == 'register-then-raise':
+        if a in ('register-then-raise', 'register-while-generation-fails'):
             a = 'register-better'
         if a == 'reenter-then-register-in-base':
             a = 'register-in-base'
@@ -321,8 +337,13 @@ LAZY_OK = {'lookup', 'lookup-default', 'lookup-b', 'lookupAll', 'names', 'subscr
 ACTIONS = ['nop', 'register-better', 'register-other-name', 'unregister-winner', 'subscribe',
            'unsubscribe', 'register-in-base', 'rebase-registry', 'rebase-interface', 'changed',
            'lookup.changed', 'reenter-same', 'reenter-other', 'gc', 'raise',
-           'register-then-raise', 'changed-then-gc', 'reenter-then-register-in-base']
+           'register-then-raise', 'changed-then-gc', 'reenter-then-register-in-base',
+           'register-while-generation-fails']
 SITES = ['required-iter', 'providedBy', 'conform', 'factory', 'generation', 'value-destructor',
+         # the value dies inside the changed() of another kind of mutation (verifying
+         # registries: it was removed from a base and lived on in the caches below)
+         'value-destructor/subscribe-new-provided', 'value-destructor/register-new-provided',
+         'value-destructor/unregister',
          'uncached_lookup:before', 'uncached_lookup:after',
          'uncached_lookupAll:before', 'uncached_lookupAll:after',
          'uncached_subscriptions:before', 'uncached_subscriptions:after']
@@ -350,10 +371,18 @@ def scenario_destructor(case, light=False):
     the middle of that and performs the action (a re-entrant lookup, a
     mutation, changed(), a collection ...)."""
     flavour, entry, site, action, warm = case
-    if entry not in DESTRUCTOR_ENTRIES or action == 'raise' or action == 'register-then-raise':
+    if entry not in DESTRUCTOR_ENTRIES or action in ('raise', 'register-then-raise', 'register-while-generation-fails'):
         return None, False
-    w = World(flavour, site, action, audit=not light)
+    trigger = site.partition('/')[2]
+    if trigger and flavour != 'verifying':
+        return None, False      # only a verifying registry can hold a removed value in its caches
+    w = World(flavour, 'value-destructor', action, audit=not light)
     w.armed = False
+    TRIGGERS = {
+        'subscribe-new-provided': lambda x: x.reg.subscribe([x.I0], x.PN, x.fNEW),
+        'register-new-provided': lambda x: x.reg.register([x.I0], x.PN, '', x.fNEW),
+        'unregister': lambda x: x.reg.unregister([x.I0], x.P, ''),
+    }
 
     class DV:
         def __call__(s, *obs):
@@ -364,16 +393,32 @@ def scenario_destructor(case, light=False):
                 w.fire('value-destructor')
             except BaseException as e:
                 w.log.append(('destructor-raised', type(e).__name__, repr(e)[:120]))
-    w.reg.register([w.I0], w.P, 'd', DV())          # the registry owns the only reference
-    DESTRUCTOR_ENTRIES[entry](w)                   # ... and now a cache holds one too
-    if warm:
-        for e in ENTRIES:
-            w.call(e, False)
-    w.armed = True
-    try:
-        w.reg.register([w.I0], w.P, 'd', w.fNEW)   # replaced: the cache has the last reference
-    except Exception as e:
-        return ('mutator-raised:' + type(e).__name__, repr(e)[:200]), bool(w.fired)
+    if trigger:
+        w.base.register([w.I0], w.P, 'd', DV())     # a base owns the only reference
+        w.base.subscribe([w.I0], w.P, w.base.registered([w.I0], w.P, 'd'))
+        DESTRUCTOR_ENTRIES[entry](w)               # ... a cache of the registry below holds one
+        w.reg.subscriptions([w.I1], w.P)           # (two, with the subscription cache)
+        if warm:
+            for e in ENTRIES:
+                w.call(e, False)
+        w.base.unsubscribe([w.I0], w.P, w.base.registered([w.I0], w.P, 'd'))
+        w.base.unregister([w.I0], w.P, 'd')         # removed: only the caches below are left
+        w.armed = True
+        try:
+            TRIGGERS[trigger](w)                    # their changed() drops the caches
+        except Exception as e:
+            return ('mutator-raised:' + type(e).__name__, repr(e)[:200]), bool(w.fired)
+    else:
+        w.reg.register([w.I0], w.P, 'd', DV())          # the registry owns the only reference
+        DESTRUCTOR_ENTRIES[entry](w)                   # ... and now a cache holds one too
+        if warm:
+            for e in ENTRIES:
+                w.call(e, False)
+        w.armed = True
+        try:
+            w.reg.register([w.I0], w.P, 'd', w.fNEW)   # replaced: the cache has the last reference
+        except Exception as e:
+            return ('mutator-raised:' + type(e).__name__, repr(e)[:200]), bool(w.fired)
     if not w.fired:
         return None, False
     w.armed = False
@@ -383,7 +428,10 @@ def scenario_destructor(case, light=False):
     if bad:
         return ('exception-inside-destructor', bad[0]), True
     t = World(flavour, audit=False)
-    t.reg.register([t.I0], t.P, 'd', t.fNEW)
+    if trigger:
+        TRIGGERS[trigger](t)
+    else:
+        t.reg.register([t.I0], t.P, 'd', t.fNEW)
     t.apply_mutation_only(action)
     for name, fn in DESTRUCTOR_ENTRIES.items():
         a, b = norm(fn(w)), norm(fn(t))
@@ -412,7 +460,7 @@ def scenario_destructor(case, light=False):
 def scenario(case, light=False):
     """Returns (violation or None, fired?)."""
     flavour, entry, site, action, warm = case
-    if site == 'value-destructor':
+    if site.startswith('value-destructor'):
         return scenario_destructor(case, light)
     lazy = site == 'required-iter'
     if lazy and entry not in LAZY_OK:
@@ -452,7 +500,7 @@ def scenario(case, light=False):
         return None, False
     if light:
         return None, True
-    expect_raise = action in ('raise', 'register-then-raise') and site != 'factory-swallow'
+    expect_raise = action in ('raise', 'register-then-raise', 'register-while-generation-fails') and site != 'factory-swallow'
     if raised and not expect_raise:
         return ('unexpected-exception', raised), True
     if expect_raise and not raised:
@@ -971,10 +1019,10 @@ def run(ctx):
     MUT_ACTIONS = ('register-better', 'unregister-winner', 'subscribe', 'unsubscribe',
                    'register-in-base', 'rebase-registry', 'rebase-interface', 'changed',
                    'lookup.changed', 'register-then-raise', 'changed-then-gc', 'reenter-other',
-                   'reenter-same', 'gc', 'reenter-then-register-in-base')
+                   'reenter-same', 'gc', 'reenter-then-register-in-base', 'register-while-generation-fails')
     if quick:
         mc = [c for c in cases if c[3] in MUT_ACTIONS and
-              (c[2].startswith('uncached') or c[2] in ('generation', 'required-iter', 'value-destructor'))]
+              (c[2].startswith('uncached') or c[2] in ('generation', 'required-iter') or c[2].startswith('value-destructor'))]
     else:
         mc = list(cases)
     # keep only scenarios that can reach their site (cheap pre-filter by pairing)
@@ -990,7 +1038,7 @@ def run(ctx):
             return c[0] == 'verifying'
         if site == 'required-iter':
             return e in LAZY_OK
-        if site == 'value-destructor':
+        if site.startswith('value-destructor'):
             return e in DESTRUCTOR_ENTRIES
         return True
     mc = [c for c in mc if pairs(c)]
